@@ -193,7 +193,8 @@ void run_case(Choices &c, Ctx &ctx)
 		case 5: { // the source is memory the node itself hands out
 			int r;
 			std::string want;
-			switch (c.pickn(3))
+			// (serialising a text escapes it: repeated, the contents would double every time - only while they are short)
+			switch (cur < 2000 ? c.pickn(3) : 1 + c.pickn(2))
 			{
 			case 0: {
 				// its own serialisation (a buffer owned by the node): the text is copied, whatever the set does to that buffer
